@@ -559,7 +559,10 @@ fn steady_ab(base: &FdCfg, arrivals: u64, exact: bool) -> (Tally, Vec<Viol>) {
             viols.push(Viol { prop: p, what, sig, replay });
         }
     }
-    for pat in patterns {
+    // `catchup`: the application feeds a fetched state of the member through the catch-up entry point
+    // right after its 5th and 9th heartbeat (the statement's third sentence holds whatever else the
+    // node is asked to do between heartbeats; the entry point must not disturb the detector)
+    for (pat, catchup) in patterns.iter().cloned().flat_map(|p| [(p.clone(), false), (p, true)]) {
         tally.inc("schedules");
         let mut o = Observer::new(cfg);
         let mut i = 0usize;
@@ -568,6 +571,11 @@ fn steady_ab(base: &FdCfg, arrivals: u64, exact: bool) -> (Tally, Vec<Viol>) {
         let res = guarded(|| {
             while o.fresh_count < arrivals {
                 o.step(Ev::Fresh);
+                if catchup && (o.fresh_count == 5 || o.fresh_count == 9) {
+                    let ver = o.fresh_count;
+                    let kvs = vec![("fetched".to_string(), chitchat::VersionedValue { value: format!("v{ver}"), version: ver, status: chitchat::DeletionStatus::Set })];
+                    o.node.cc.reset_node_state_if_update(&real::to_real_id(&x_id()), kvs.into_iter(), ver, 0);
+                }
                 let adv = if pat[i % pat.len()] { Ev::AdvB } else { Ev::AdvA };
                 i += 1;
                 o.step(adv);
@@ -580,13 +588,13 @@ fn steady_ab(base: &FdCfg, arrivals: u64, exact: bool) -> (Tally, Vec<Viol>) {
                 // the first value only registers the member, the second starts the clock, the third
                 // closes the first interval: from then on every evaluation must say live
                 if o.fresh_count >= 3 && verdict == Some(false) {
-                    bad = Some(("C11", format!("steady heartbeats every {a}/{b} ms (pattern {pat:?}) flagged dead at arrival {} with phi_threshold {thr}", o.fresh_count), "steady-member-flagged".into()));
+                    bad = Some(("C11", format!("steady heartbeats every {a}/{b} ms (pattern {pat:?}{}) flagged dead at arrival {} with phi_threshold {thr}", if catchup { ", catch-up calls after the 5th and 9th heartbeat" } else { "" }, o.fresh_count), "steady-member-flagged".into()));
                     return;
                 }
             }
         });
         tally.add("evaluations", evals);
-        let replay = json!({"engine":"fd","kind":"steady","config":cfg.json(),"pattern":pat,"arrivals":arrivals});
+        let replay = json!({"engine":"fd","kind":"steady","config":cfg.json(),"pattern":pat,"arrivals":arrivals,"catchup":catchup});
         if let Err(p) = res {
             viols.push(Viol { prop: "C11", what: format!("panic: {p}"), sig: format!("panic:{}", short_loc(&p)), replay });
         } else if let Some((p, what, sig)) = bad {
@@ -784,7 +792,7 @@ pub fn run(property: &'static str, tier: Tier, started: Instant) -> Vec<Part> {
 
     if property == "C11" {
         let mut s = Part::new("fd/steady-arrivals");
-        s.rule = "fresh heartbeats at intervals drawn from {a, b} (every pattern of period <= 3, a = max_interval/4, b = max_interval/2), an evaluation after every interval, phi_threshold = b / min(a, initial_interval) x (1 + 1e-6) — and exactly b / min(a, initial_interval) where a = initial_interval in whole seconds, so that the arithmetic is exact —, for every (window, initial, max) of the grid: from the third value on every evaluation must say live; and the returning-member variant: a first life long enough to wrap the sampling window, a silence beyond the bound (found dead), then steady heartbeats again: from the second value after the return on, every evaluation must say live; the same with a finite dead-node grace period G = 4 x bound and a return after more than G/2 of being dead (member scheduled for deletion)".into();
+        s.rule = "fresh heartbeats at intervals drawn from {a, b} (every pattern of period <= 3, a = max_interval/4, b = max_interval/2), an evaluation after every interval, phi_threshold = b / min(a, initial_interval) x (1 + 1e-6) — and exactly b / min(a, initial_interval) where a = initial_interval in whole seconds, so that the arithmetic is exact —, for every (window, initial, max) of the grid: from the third value on every evaluation must say live (also when the application feeds a fetched state of the member through the catch-up entry point after the 5th and 9th heartbeat); and the returning-member variant: a first life long enough to wrap the sampling window, a silence beyond the bound (found dead), then steady heartbeats again: from the second value after the return on, every evaluation must say live; the same with a finite dead-node grace period G = 4 x bound and a return after more than G/2 of being dead (member scheduled for deletion)".into();
         let mut viols = vec![];
         let mut seen = std::collections::BTreeSet::new();
         for cfg in &cfgs {
